@@ -110,10 +110,18 @@ func must(err error) {
 	}
 }
 
+// bs prints a byte string as (B n 0xHEX): one numeral, decoded by Model/TcQos.v B.
+func bs(b []byte) string {
+	if len(b) == 0 {
+		return "(B 0 0)"
+	}
+	return fmt.Sprintf("(B %d 0x%x)", len(b), b)
+}
+
 func coqKV(kvs []bpfrun.KV) string {
 	var it []string
 	for _, kv := range kvs {
-		it = append(it, vh.Pair(vh.Bytes(kv.Key), vh.Bytes(kv.Value)))
+		it = append(it, vh.Pair(bs(kv.Key), bs(kv.Value)))
 	}
 	return vh.List(it)
 }
@@ -161,7 +169,7 @@ func (e *env) run(c Case) vh.Case {
 					must(e.obj.Put(mapName[d], o.Key, o.Val))
 				}
 			}
-			tr = append(tr, fmt.Sprintf("(PutRaw %s %s %s, %s)", dirName[d], vh.Bytes(o.Key), vh.Bytes(o.Val), out))
+			tr = append(tr, fmt.Sprintf("(PutRaw %s %s %s, %s)", dirName[d], bs(o.Key), bs(o.Val), out))
 		case "set", "rm":
 			tags["op:"+o.K] = true
 			if !kmode {
@@ -190,9 +198,9 @@ func (e *env) run(c Case) vh.Case {
 				tags["mgr:error"] = true
 			}
 			if o.K == "rm" {
-				tr = append(tr, fmt.Sprintf("(Remove %s, %s)", vh.Bytes(o.IP), out))
+				tr = append(tr, fmt.Sprintf("(Remove %s, %s)", bs(o.IP), out))
 			} else {
-				tr = append(tr, fmt.Sprintf("(SetQoS %s %s %d %d %d %d, %s)", vh.Bool(o.Pol), vh.Bytes(o.IP), o.Down, o.Up, o.Burst, o.Prio, out))
+				tr = append(tr, fmt.Sprintf("(SetQoS %s %s %d %d %d %d, %s)", vh.Bool(o.Pol), bs(o.IP), o.Down, o.Up, o.Burst, o.Prio, out))
 			}
 		case "pkt", "sub":
 			frame := o.Frame
@@ -259,10 +267,10 @@ func (e *env) run(c Case) vh.Case {
 				tags[fmt.Sprintf("verdict:%d", verdict)] = true
 			}
 			if o.K == "sub" {
-				tr = append(tr, fmt.Sprintf("(Sub %s %s %d %d, %s)", dirName[d], vh.Bytes(o.IP), o.Plen, o.Now, out))
+				tr = append(tr, fmt.Sprintf("(Sub %s %s %d %d, %s)", dirName[d], bs(o.IP), o.Plen, o.Now, out))
 			} else {
 				tags[fmt.Sprintf("framelen:%s", lenClass(len(frame)))] = true
-				tr = append(tr, fmt.Sprintf("(Pkt %s %s %d %d, %s)", dirName[d], vh.Bytes(frame), o.Plen, o.Now, out))
+				tr = append(tr, fmt.Sprintf("(Pkt %s %s %d %d, %s)", dirName[d], bs(frame), o.Plen, o.Now, out))
 			}
 		case "rep":
 			tags["op:rep"] = true
@@ -282,7 +290,7 @@ func (e *env) run(c Case) vh.Case {
 			if kmode {
 				e.syncNativeToKernel()
 			}
-			tr = append(tr, fmt.Sprintf("(Rep %s %s %d %d %d %d, ORle %s)", dirName[d], vh.Bytes(o.IP), o.Plen, o.Now, o.Gap, o.N, vh.List(it)))
+			tr = append(tr, fmt.Sprintf("(Rep %s %s %d %d %d %d, ORle %s)", dirName[d], bs(o.IP), o.Plen, o.Now, o.Gap, o.N, vh.List(it)))
 		case "snap":
 			var kvs []bpfrun.KV
 			var err error
